@@ -39,6 +39,12 @@ pub struct FloodCase {
     /// connecting, sending one request, receiving its answer and leaving (state that accumulates
     /// per accepted connection: serial numbers, generation counters, slots)
     pub cycles: usize,
+    /// > 0: "storm" mode - the server is full (10 resident connections) and this many further clients
+    /// arrive, `burst` at a time, each to be refused with the 503 text; afterwards simulated time
+    /// passes, one more client must still get its 503, the residents must still be served, and a
+    /// released slot must admit a newcomer (state that accumulates per refusal)
+    pub storm: usize,
+    pub burst: usize,
 }
 
 impl FloodCase {
@@ -52,6 +58,8 @@ impl FloodCase {
             ("cap_c2s", json::u(self.cap_c2s)),
             ("cap_s2c", json::u(self.cap_s2c)),
             ("cycles", json::u(self.cycles)),
+            ("storm", json::u(self.storm)),
+            ("burst", json::u(self.burst)),
         ])
     }
     pub fn from_json(j: &J) -> Result<FloodCase, String> {
@@ -63,6 +71,8 @@ impl FloodCase {
             cap_c2s: j.req_usize("cap_c2s")?.max(64),
             cap_s2c: j.req_usize("cap_s2c")?.max(256),
             cycles: j.get("cycles").and_then(|x| x.usize()).unwrap_or(0),
+            storm: j.get("storm").and_then(|x| x.usize()).unwrap_or(0),
+            burst: j.get("burst").and_then(|x| x.usize()).unwrap_or(1).max(1),
         })
     }
 }
@@ -84,6 +94,27 @@ pub fn gen_turnstile(rng: &mut Rng) -> J {
             1 => rng.range(65_530, 66_000),
             _ => rng.range(1000, 3000),
         },
+        storm: 0,
+        burst: 1,
+    }
+    .to_json()
+}
+
+pub fn gen_storm(rng: &mut Rng) -> J {
+    FloodCase {
+        n: 0,
+        answer_at: 0,
+        batch: false,
+        send_chunk: 4096,
+        cap_c2s: 212_992,
+        cap_s2c: 212_992,
+        cycles: 0,
+        storm: match rng.below(3) {
+            0 => rng.range(260, 600),
+            1 => rng.range(1_030, 3_000),
+            _ => rng.range(65_540, 66_000),
+        },
+        burst: *rng.pick(&[1usize, 1, 2, 7, 40]),
     }
     .to_json()
 }
@@ -108,6 +139,8 @@ pub fn gen_flood(rng: &mut Rng) -> J {
         cap_c2s: *rng.pick(&[4096usize, 212_992]),
         cap_s2c: *rng.pick(&[4096usize, 212_992]),
         cycles: 0,
+        storm: 0,
+        burst: 1,
     }
     .to_json()
 }
@@ -124,6 +157,18 @@ pub fn shrink_flood(j: &J) -> Vec<J> {
             d.cycles = k;
             out.push(d.to_json());
         }
+    }
+    for k in [c.storm / 2, c.storm * 3 / 4, c.storm.saturating_sub(100), c.storm.saturating_sub(10), c.storm.saturating_sub(1)] {
+        if k >= 1 && k < c.storm {
+            let mut d = c.clone();
+            d.storm = k;
+            out.push(d.to_json());
+        }
+    }
+    if c.burst > 1 {
+        let mut d = c.clone();
+        d.burst = 1;
+        out.push(d.to_json());
     }
     for n in [c.n / 2, c.n * 3 / 4, c.n.saturating_sub(100), c.n.saturating_sub(10), c.n.saturating_sub(1)] {
         if n >= 1 && n < c.n {
@@ -175,6 +220,9 @@ pub fn exec_flood(case: &J, prop: &'static str, st: &mut Stats) -> Result<RunOut
     world::reset(Config { cap_c2s: case.cap_c2s, cap_s2c: case.cap_s2c, out_threshold: OutThreshold::AnySpace, log: false, first_fd: 3, fd_stride: 1 });
     if case.cycles > 0 {
         return exec_turnstile(&case, prop, st);
+    }
+    if case.storm > 0 {
+        return exec_storm(&case, prop, st);
     }
     let built = catch_unwind(AssertUnwindSafe(|| -> Result<HttpServer, String> {
         let mut s = HttpServer::new(SOCK_PATH).map_err(|e| format!("HttpServer::new: {}", e))?;
@@ -499,6 +547,177 @@ fn exec_turnstile(case: &FloodCase, prop: &'static str, st: &mut Stats) -> Resul
     }
     sig.u(case.cycles as u64);
     sig.u(case.batch as u64);
+    drop(server);
+    Ok(RunOut { violation: None, nontrivial: true, sig: sig.get(), trace_hash: sig.get() })
+}
+
+fn exec_storm(case: &FloodCase, prop: &'static str, st: &mut Stats) -> Result<RunOut, String> {
+    let mut sig = Sig::new();
+    let mut step = 0usize;
+    macro_rules! viol {
+        ($class:expr, $detail:expr) => {
+            return Ok(RunOut {
+                violation: Some(Violation::new(&format!("{}:{}", prop, $class), step, $detail)),
+                nontrivial: true,
+                sig: sig.get(),
+                trace_hash: sig.get(),
+            })
+        };
+    }
+    let built = catch_unwind(AssertUnwindSafe(|| -> Result<HttpServer, String> {
+        let mut s = HttpServer::new(SOCK_PATH).map_err(|e| format!("HttpServer::new: {}", e))?;
+        s.start_server().map_err(|e| format!("start_server: {}", e))?;
+        Ok(s)
+    }));
+    let mut server = match built {
+        Ok(Ok(s)) => s,
+        Ok(Err(e)) => viol!("setup", e),
+        Err(p) => viol!("panic", format!("server setup panicked: {}", panic_msg(p))),
+    };
+    let epfd = server.epoll().as_raw_fd();
+    // poll while the epoll descriptor is readable (bounded); returns the requests yielded
+    macro_rules! settle {
+        ($what:expr) => {{
+            let mut got: Vec<ServerRequest> = Vec::new();
+            let mut polls = 0;
+            while world::with(|w| w.epoll_readable(epfd)) {
+                polls += 1;
+                if polls > 200 {
+                    viol!("spin", format!("{}: the epoll descriptor keeps signalling after 200 polls", $what));
+                }
+                st.lib_calls += 1;
+                match catch_unwind(AssertUnwindSafe(|| server.requests())) {
+                    Err(p) => viol!("panic", format!("requests() panicked ({}): {}", $what, panic_msg(p))),
+                    Ok(Err(e)) => viol!("poll-err", format!("requests() returned Err({}) ({})", e, $what)),
+                    Ok(Ok(r)) => got.extend(r),
+                }
+            }
+            got
+        }};
+    }
+    let mut residents = Vec::new();
+    for _ in 0..crate::engc::MAX_CONN {
+        let c = match world::with(|w| w.client_connect(SOCK_PATH)) {
+            Ok(c) => c,
+            Err(e) => return Err(format!("client connect failed: errno {}", e)),
+        };
+        residents.push(c);
+        let r = settle!("accepting a resident");
+        if !r.is_empty() {
+            viol!("yield-mismatch", "a request was yielded although nobody sent one".to_string());
+        }
+    }
+    // one refused client: must read exactly the 503 text and then end-of-file
+    macro_rules! expect_refused {
+        ($conn:expr, $k:expr) => {{
+            let mut got: Vec<u8> = Vec::new();
+            let mut eof = false;
+            loop {
+                match world::with(|w| w.client_recv($conn, 1 << 16)) {
+                    Ok(b) if b.is_empty() => {
+                        eof = true;
+                        break;
+                    }
+                    Ok(b) => got.extend_from_slice(&b),
+                    Err(_) => break,
+                }
+            }
+            if got != crate::engc::FULL_MSG || !eof {
+                viol!(
+                    "refused-client-output",
+                    format!("surplus client #{} (server full): received {} byte(s), end-of-file = {}; expected the 503 text and a disconnect", $k, got.len(), eof)
+                );
+            }
+            world::with(|w| w.client_close($conn));
+        }};
+    }
+    let mut k = 0;
+    while k < case.storm {
+        step = k;
+        st.steps += 1;
+        let b = case.burst.min(case.storm - k);
+        let mut conns = Vec::new();
+        for _ in 0..b {
+            match world::with(|w| w.client_connect(SOCK_PATH)) {
+                Ok(c) => conns.push(c),
+                Err(e) => return Err(format!("client connect failed: errno {}", e)),
+            }
+        }
+        if !world::with(|w| w.epoll_readable(epfd)) {
+            viol!("lost-wakeup", format!("{} client(s) wait to be accepted (after {} refusals) and the epoll descriptor is not readable", b, k));
+        }
+        let r = settle!("refusing surplus clients");
+        if !r.is_empty() {
+            viol!("yield-mismatch", "a request was yielded during the storm although nobody sent one".to_string());
+        }
+        for (i, c) in conns.into_iter().enumerate() {
+            expect_refused!(c, k + i);
+        }
+        k += b;
+    }
+    st.probe("refusal_storm");
+    if case.storm > 1024 {
+        st.probe("refusal_storm_over_1024");
+    }
+    // time passes; the server is still full: one more client still gets its refusal
+    simkernel::rawsys::clock::advance(10_000_000_000);
+    step = case.storm;
+    let late = match world::with(|w| w.client_connect(SOCK_PATH)) {
+        Ok(c) => c,
+        Err(e) => return Err(format!("client connect failed: errno {}", e)),
+    };
+    if !world::with(|w| w.epoll_readable(epfd)) {
+        viol!("lost-wakeup", format!("ten simulated seconds after {} refusals a client waits to be accepted and the epoll descriptor is not readable", case.storm));
+    }
+    let _ = settle!("refusing a late client");
+    expect_refused!(late, case.storm);
+    // the residents are still served
+    let conn = residents[3];
+    let req = request_bytes(7);
+    match world::with(|w| w.client_send(conn, &req)) {
+        Ok(n) if n == req.len() => {}
+        other => return Err(format!("client send: {:?}", other)),
+    }
+    let reqs = settle!("serving a resident after the storm");
+    if reqs.len() != 1 {
+        viol!("yield-mismatch", format!("a resident sent one request after the storm; {} yielded", reqs.len()));
+    }
+    let (resp, want) = response_for(7);
+    let mut resp = Some(resp);
+    for r in reqs {
+        let mut slot = resp.take();
+        let sr = r.process(|_| slot.take().expect("one response"));
+        match catch_unwind(AssertUnwindSafe(|| server.respond(sr))) {
+            Err(p) => viol!("panic", format!("respond() panicked: {}", panic_msg(p))),
+            Ok(Err(e)) => viol!("respond-err", format!("respond() failed after the storm: {}", e)),
+            Ok(Ok(())) => {}
+        }
+    }
+    let _ = settle!("answering a resident after the storm");
+    let got = world::with(|w| w.client_recv(conn, 1 << 16)).unwrap_or_default();
+    if got != want {
+        viol!("output-stream-differs", format!("the resident received {} byte(s), expected the {}-byte response", got.len(), want.len()));
+    }
+    // a resident leaves: capacity is regained, a newcomer is served
+    world::with(|w| w.client_close(residents[0]));
+    let _ = settle!("a resident left");
+    let newcomer = match world::with(|w| w.client_connect(SOCK_PATH)) {
+        Ok(c) => c,
+        Err(e) => return Err(format!("client connect failed: errno {}", e)),
+    };
+    let _ = settle!("accepting a newcomer");
+    let req = request_bytes(8);
+    let _ = world::with(|w| w.client_send(newcomer, &req));
+    let reqs = settle!("serving the newcomer");
+    if reqs.len() != 1 {
+        let got = world::with(|w| w.client_recv(newcomer, 1 << 16)).unwrap_or_default();
+        viol!(
+            "refused-below-capacity",
+            format!("after a resident left, a newcomer's request was not yielded ({} yielded); it received {} byte(s)", reqs.len(), got.len())
+        );
+    }
+    sig.u(case.storm as u64);
+    sig.u(case.burst as u64);
     drop(server);
     Ok(RunOut { violation: None, nontrivial: true, sig: sig.get(), trace_hash: sig.get() })
 }
